@@ -25,9 +25,11 @@
 (*   DeltaLemma  family-based delta = difference of network scores         *)
 (*   NbrLemma    {Apply(E,o)} over operations with a DAG result = the DAGs *)
 (*               one edge change away from E (by enumeration of ALL DAGs)  *)
+(*   LegalIsAdmissible  results of legal operations = the admissible DAGs   *)
+(*               one edge change away (enumeration of ALL DAGs)            *)
 (*   Terminal    a terminal state satisfies the full contract; in          *)
 (*               particular with tabu length 0 a self-stopped run is a     *)
-(*               local optimum among ALL admissible neighbouring DAGs      *)
+(*               local optimum among all admissible neighbouring DAGs      *)
 (* Emit prints every terminal state: the harness groups them per initial   *)
 (* choice = the set of results the real code may return.                   *)
 (***************************************************************************)
@@ -37,77 +39,88 @@ Insts == JsonDeserialize(IOEnv.INST_FILE)
 
 Tokens == <<"v0", "v1", "v2", "v3", "v4", "v5">>
 NodeSet(n) == {Tokens[i] : i \in 1..n}
-DagTab == [k \in 1..MaxN |-> AllDAGs(NodeSet(k))] @@ <<>>
+\* ({d : d \in S} and @@ force TLC to enumerate the filtered set / the function once, at constant level)
+DagTab == [k \in 1..MaxN |-> {d : d \in AllDAGs(NodeSet(k))}] @@ <<>>
 
-VARIABLES ii, cf, E, tabu, it, st, hist
-vars == <<ii, cf, E, tabu, it, st, hist>>
-I == Insts[ii]
-N == ToSet(I.nodes)
-C == [fixed |-> ToSet(I.fixed), black |-> ToSet(I.black), white |-> ToSet(I.white), maxin |-> cf.maxin]
-E0 == cf.start \cup ToSet(I.fixed)
+\* pb = the instance with its JSON sequences converted to sets.  It is a VARIABLE (constant along a behaviour) because TLC
+\* re-evaluates every definition that depends on IOEnv (i.e. re-reads the file) at each use; a state component is a plain value.
+VARIABLES pb, sh, cf, E, tabu, it, st, hist, gain
+vars == <<pb, sh, cf, E, tabu, it, st, hist, gain>>
+Problem(inst) == [id |-> inst.id, n |-> Len(inst.nodes), N |-> ToSet(inst.nodes), ops |-> AllOps(ToSet(inst.nodes)),
+                  bit |-> inst.bit, tab |-> inst.tab, pe |-> inst.pe,
+                  fixed |-> ToSet(inst.fixed), black |-> ToSet(inst.black), white |-> ToSet(inst.white),
+                  allstarts |-> inst.allstarts, starts |-> {ToSet(s) : s \in ToSet(inst.starts)},
+                  maxins |-> ToSet(inst.maxins), tabus |-> ToSet(inst.tabus), epss |-> ToSet(inst.epss),
+                  maxiters |-> ToSet(inst.maxiters)]
+I == pb
+N == pb.N
+OPS == pb.ops
+C == [fixed |-> pb.fixed, black |-> pb.black, white |-> pb.white, maxin |-> cf.maxin]
+E0 == cf.start \cup pb.fixed
 NoCf == [start |-> {}, maxin |-> 0, tabu |-> 0, eps |-> 1, maxiter |-> 0]
 
-Starts(inst) == IF inst.allstarts THEN DagTab[Len(inst.nodes)] ELSE {ToSet(s) : s \in ToSet(inst.starts)}
-
-Init == /\ ii \in 1..Len(Insts)
-        /\ cf = NoCf /\ E = {} /\ tabu = <<>> /\ it = 0 /\ st = "init" /\ hist = <<>>
+\* sh only spreads the initial choices over TLC's workers (start graphs with |edges| % 4 = sh)
+Init == /\ \E s \in {Insts} : pb \in {Problem(s[i]) : i \in 1..Len(s)}      \* (the file is read once)
+        /\ sh \in 0..3
+        /\ cf = NoCf /\ E = {} /\ tabu = <<>> /\ it = 0 /\ st = "init" /\ hist = <<>> /\ gain = 1
 
 \* the statement quantifies over start graphs that are DAGs and already satisfy black list and in-degree bound
-GoodStart(c) == LET e0 == c.start \cup ToSet(I.fixed) IN
+GoodStart(c) == LET e0 == c.start \cup pb.fixed IN
                 /\ Acyclic(N, e0)
-                /\ e0 \cap ToSet(I.black) = {}
+                /\ e0 \cap pb.black = {}
                 /\ \A v \in N : Cardinality(Pa(e0, v)) <= c.maxin
 Pick == /\ st = "init"
-        /\ \E c \in [start : Starts(I), maxin : ToSet(I.maxins),
-                     tabu : IF Mode = "lemma" THEN {0} ELSE ToSet(I.tabus),
-                     eps : IF Mode = "lemma" THEN {1} ELSE ToSet(I.epss),
-                     maxiter : IF Mode = "lemma" THEN {0} ELSE ToSet(I.maxiters)] :
+        /\ \E c \in [start : IF pb.allstarts THEN DagTab[pb.n] ELSE pb.starts, maxin : pb.maxins,
+                     tabu : IF Mode = "lemma" THEN {0} ELSE pb.tabus,
+                     eps : IF Mode = "lemma" THEN {1} ELSE pb.epss,
+                     maxiter : IF Mode = "lemma" THEN {0} ELSE pb.maxiters] :
+              /\ Cardinality(c.start) % 4 = sh
               /\ GoodStart(c)
-              /\ cf' = c /\ E' = c.start \cup ToSet(I.fixed)
+              /\ cf' = c /\ E' = c.start \cup pb.fixed
         /\ st' = (IF Mode = "lemma" THEN "lemma" ELSE "run")
-        /\ UNCHANGED <<ii, tabu, it, hist>>
+        /\ UNCHANGED <<pb, sh, tabu, it, hist>> /\ gain' = cf'.eps
 
 MaxIter == /\ st = "run" /\ it = cf.maxiter
-           /\ st' = "maxiter" /\ UNCHANGED <<ii, cf, E, tabu, it, hist>>
+           /\ st' = "maxiter" /\ UNCHANGED <<pb, sh, cf, E, tabu, it, hist, gain>>
 \* one iteration: the legal set and its deltas are computed once
+\* (\E over a singleton set = eager evaluation; TLC re-evaluates LET bodies at every use)
 Iterate == /\ st = "run" /\ it < cf.maxiter
-           /\ LET l == Legal(C, N, E, tabu)
-                  d == [o \in l |-> Delta(I, E, o)]
-                  best == MaxOf({d[o] : o \in l})
-              IN IF l = {} \/ best < cf.eps
-                 THEN st' = "stopped" /\ UNCHANGED <<E, tabu, it, hist>>
-                 ELSE \E o \in {p \in l : d[p] = best} :
-                        /\ E' = Apply(E, o)
-                        /\ tabu' = Push(tabu, Undo(o), cf.tabu)
+           /\ \E ld \in {{<<o, Delta(I, E, o)>> : o \in Legal(C, N, OPS, E, tabu)}} :
+                IF ld = {} \/ MaxOf({p[2] : p \in ld}) < cf.eps
+                THEN st' = "stopped" /\ UNCHANGED <<E, tabu, it, hist, gain>>
+                ELSE \E best \in {MaxOf({p[2] : p \in ld})} : \E p \in ld :
+                        /\ p[2] = best
+                        /\ E' = Apply(E, p[1])
+                        /\ tabu' = Push(tabu, Undo(p[1]), cf.tabu)
                         /\ it' = it + 1
-                        /\ hist' = Append(hist, o)
+                        /\ hist' = Append(hist, p[1])
                         /\ st' = st
-           /\ UNCHANGED <<ii, cf>>
+                        /\ gain' = Score(I, N, Apply(E, p[1])) - Score(I, N, E)
+           /\ UNCHANGED <<pb, sh, cf>>
 Next == Pick \/ MaxIter \/ Iterate
 
 \* ---- invariants of the machine (Mode = "run") ---------------------------------
 Running == st \in {"run", "stopped", "maxiter"}
-Safe == Running => ContractFailures(I, C, N, E0, E, cf.eps, 0, FALSE, cf.tabu) = {}
-Monotone == [][E' # E /\ st = "run" => Score(I, N, E') - Score(I, N, E) >= cf.eps]_vars
-\* the property's local-optimality clause, stated on graphs (not on operations)
-LocalOptimum ==
-    \A F \in DagTab[Len(I.nodes)] :
-        OneEdgeChange(E, F) /\ Admissible(C, N, E, F) => Score(I, N, F) - Score(I, N, E) < cf.eps
+Safe == Running => ContractFailures(I, C, N, OPS, E0, E, cf.eps, 0, FALSE, cf.tabu) = {}
+\* gain = network-score difference of the last move (by definition, not via Delta)
+Monotone == gain >= cf.eps
+\* A terminal state satisfies the whole contract.  Its clause "not_local_optimum" says: no operation whose result is an
+\* admissible graph raises the network score by eps or more; by LegalIsAdmissible (lemma mode, EVERY DAG) these results are
+\* exactly the admissible DAGs one edge addition / deletion / reversal away, which is the property's clause stated on graphs.
 Terminal == st \in {"stopped", "maxiter"} =>
-    /\ ContractFailures(I, C, N, E0, E, cf.eps, 0, st = "stopped", cf.tabu) = {}
-    /\ (st = "stopped" /\ cf.tabu = 0 => LocalOptimum)
+    /\ ContractFailures(I, C, N, OPS, E0, E, cf.eps, 0, st = "stopped", cf.tabu) = {}
     /\ (st = "maxiter" => it = cf.maxiter)
     /\ it = Len(hist)
 
 \* ---- graph lemmas, checked on every admissible start graph (Mode = "lemma": every DAG) ----
-LegalLemma == st = "lemma" => \A o \in AllOps(N) : StructLegal(C, N, E, o) <=> FastLegal(C, N, E, o)
-DeltaLemma == st = "lemma" => \A o \in AllOps(N) : Pre(E, o) => Delta(I, E, o) = Score(I, N, Apply(E, o)) - Score(I, N, E)
+LegalLemma == st = "lemma" => \A o \in OPS : StructLegal(C, N, E, o) <=> FastLegal(C, N, E, o)
+DeltaLemma == st = "lemma" => \A o \in OPS : Pre(E, o) => Delta(I, E, o) = Score(I, N, Apply(E, o)) - Score(I, N, E)
 NbrLemma == st = "lemma" =>
-    {Apply(E, o) : o \in {p \in AllOps(N) : Pre(E, p) /\ Acyclic(N, Apply(E, p))}}
-      = {F \in DagTab[Len(I.nodes)] : OneEdgeChange(E, F)}
+    {Apply(E, o) : o \in {p \in OPS : Pre(E, p) /\ Acyclic(N, Apply(E, p))}}
+      = {F \in DagTab[pb.n] : OneEdgeChange(E, F)}
 \* legal operations lead to admissible graphs and every admissible neighbouring DAG is reached by a legal operation
 LegalIsAdmissible == st = "lemma" =>
-    {Apply(E, o) : o \in Legal(C, N, E, <<>>)} = {F \in DagTab[Len(I.nodes)] : OneEdgeChange(E, F) /\ Admissible(C, N, E, F)}
+    {Apply(E, o) : o \in Legal(C, N, OPS, E, <<>>)} = {F \in DagTab[pb.n] : OneEdgeChange(E, F) /\ Admissible(C, N, E, F)}
 
 Emit == st \in {"stopped", "maxiter"} =>
     PrintT(ToJson([id |-> I.id, start |-> cf.start, maxin |-> cf.maxin, tabu |-> cf.tabu, eps |-> cf.eps,
